@@ -671,6 +671,11 @@ def run(chk, prog):
                     function=fn["qname"], construct="shift before dump rename")
     chk.floor("U3", 4, 4)
 
+    # ---- U7: explicit deletions in the rotation never hit a backup that is to be kept (c14_remove.py) ----------------
+    from . import c14_remove
+    n_u7 = c14_remove.rule_U7(chk, fn, g, shift_renames, dump_renames, dump_local)
+    chk.floor("U7", n_u7, 1)
+
     # ---- U5: caller --------------------------------------------------------
     ur = prog.unit("TaskBasedRadiationHydrodynamicsSimulation.cpp")
     chk.analysed(unit=ur.name)
